@@ -436,8 +436,8 @@ def check_actions(repo, rep):
         built = []
 
         def oracle(name, args, kwargs):
-            if name in (EXP + ':BinaryOperator', EXP + '.BinaryOperator',
-                        EXP + ':UnaryOperator', EXP + '.UnaryOperator'):
+            if name.startswith((EXP + ':', EXP + '.')) and \
+                    name.rsplit('.', 1)[-1].rsplit(':', 1)[-1][:1].isupper():
                 built.append((name.replace(':', '.').rsplit('.', 1)[1],
                               list(args)))
                 return (absint.Sym('node'),)
@@ -447,8 +447,9 @@ def check_actions(repo, rep):
             slice=[None if t is None else absint.Obj('sym', type=t)
                    for t in types])
         this = absint.Obj('this', _aliases=dict(aliases))
-        ops = absint.Obj('table', operators={'-': ('-',), '!': ('!',),
-                                              '+': ('+',)})
+        ops = absint.Obj('table', operators={
+            x: (x,) for x in items if isinstance(x, str)} | {
+            '-': ('-',), '!': ('!',), '+': ('+',)})
         it = absint.Interp(repo, mod, oracle, follow=False)
         ps = fi.params()
         args = {ps[-1]: pobj}
@@ -487,6 +488,49 @@ def check_actions(repo, rep):
                'BinaryOperator(<operator text>, <left>, <right>, <alias of '
                'the operator token>) and become p[0]; built %r, p[0]=%r' % (
                    a, p0), loc=mod.loc(pb.node))
+    # every operator symbol of the standard table, with and without an
+    # alias: the actions must treat them all alike
+    fmod = repo.module('yaql.language.factory')
+    std = fmod.func('YaqlFactory._standard_operators')
+    symbols = sorted({t.elts[0].value for t in ast.walk(std.node)
+                      if isinstance(t, ast.Tuple) and t.elts and isinstance(
+                          t.elts[0], ast.Constant) and isinstance(
+                          t.elts[0].value, str)} - {'[]', '{}'})
+    if len(symbols) < 15:
+        raise AnalysisError('anchor vanished: operator symbols of '
+                            '_standard_operators (%d found)' % len(symbols))
+    uniform_bad = []
+    for sym in symbols:
+        for aliased in (True, False):
+            al = {'OP_B': 'al', 'OP_U': 'al', 'OP_S': 'al'} if aliased \
+                else {}
+            want_alias = 'al' if aliased else None
+            o, b, p0 = run(pb, [None, L, sym, R],
+                           [None, 'value', 'OP_B', 'value'], al)
+            if not (len(b) == 1 and b[0][0] == 'BinaryOperator' and
+                    len(b[0][1]) >= 4 and b[0][1][0] == sym and
+                    b[0][1][1] is L and b[0][1][2] is R and
+                    b[0][1][3] == want_alias and
+                    isinstance(p0, absint.Sym)):
+                uniform_bad.append('binary %r alias=%s' % (sym, aliased))
+            for items, types in (([None, sym, V], [None, 'OP_U', 'value']),
+                                 ([None, V, sym], [None, 'value', 'OP_S'])):
+                o, b, p0 = run(pu, items, types, al)
+                if not (len(b) == 1 and b[0][0] == 'UnaryOperator' and
+                        len(b[0][1]) >= 3 and b[0][1][0] == sym and
+                        b[0][1][1] is V and b[0][1][2] == want_alias and
+                        isinstance(p0, absint.Sym)):
+                    uniform_bad.append('%s %r alias=%s' % (
+                        'prefix' if items[1] == sym else 'suffix', sym,
+                        aliased))
+    rep.ob('R02e', 'yaql.language.parser:actions/uniform-over-symbols',
+           not uniform_bad,
+           'the reduce actions must build the same kind of node for every '
+           'operator symbol, aliased or not (the tree is dictated by the '
+           'table, not by the spelling of an operator); they do not for: %s'
+           % uniform_bad[:6], loc=mod.loc(pu.node),
+           construct='; '.join(uniform_bad[:4]))
+    rep.count(action_scenarios=len(symbols) * 6)
     for label, items, types, op in (
             ('prefix', [None, '-', V], [None, 'OP_U', 'value'], '-'),
             ('suffix', [None, V, '!'], [None, 'value', 'OP_S'], '!')):
